@@ -23,12 +23,12 @@ def run(ctx):
         ctx.tlc_mc(fam, "ByteBuffer", "ByteBuffer_MC_big.cfg", workers=16, timeout=3000, heap="16g")
     # 2. operation sequences out of the spec (two simulation levels per operation, see ByteBuffer_Gen)
     # depth 62 = Depth in the cfg = 30 operations
-    pdir, plans = ctx.tlc_plans(fam, "ByteBuffer_Gen", "ByteBuffer_Gen.cfg", num=ctx.q(250, 1500), depth=62)
+    pdir, plans = ctx.tlc_plans(fam, "ByteBuffer_Gen", "ByteBuffer_Gen.cfg", num=ctx.q(200, 1200), depth=62)
     # 3. execute on both implementations
     binary = ctx.go_build("c11")
     tex_f, std_f = ctx.path("tex.ndjson"), ctx.path("std.ndjson")
     out = ctx.harness(binary, ["-plans", pdir, "-out", tex_f, "-ref", std_f, "-seed", ctx.seed,
-                               "-hist", ctx.q(400, 4000), "-maxops", ctx.q(80, 150), "-hang", "20s"],
+                               "-hist", ctx.q(400, 3000), "-maxops", ctx.q(80, 150), "-hang", "20s"],
                       traces=[tex_f])
     stats = {}
     for ln in out.split("\n"):
